@@ -766,7 +766,7 @@ func relSize(t *rapid.T, label string, base int, rel int) int {
 }
 
 func genScenario(t *rapid.T) Scenario {
-	l3 := ev.SwitchOn(swL3)
+	l3 := models.KnownSwitch(swL3)
 	var sc Scenario
 	sc.Dir = rapid.SampledFrom([]string{"d", "e"}).Draw(t, "dir")
 	sc.Name = rapid.SampledFrom([]string{"a", "b", "c.d"}).Draw(t, "name")
